@@ -299,6 +299,33 @@ fn run_one(case: &CCase, sched_lines: &[String], free_seed: Option<u64>) -> Vec<
     let deadline = Instant::now() + Duration::from_secs(10);
     for h in handles { while !h.is_finished() && Instant::now() < deadline { std::thread::sleep(Duration::from_millis(5)); } if !h.is_finished() { out.push("X worker still blocked after the schedule ended".into()); } }
     *CUR.lock().unwrap() = None;
+    // restart after concurrent use (proofs/ConcDurable.v: the log written by any interleaving replays to
+    // the index the threads left in memory): with every worker finished and no injected obstacle, the
+    // handle is dropped and the directory opened again; index and statistics before and after are printed
+    let all_done = !out.iter().any(|l| l.starts_with("X "));
+    let obstacles = case.lines.iter().any(|l| l.starts_with("undeletable") || l.starts_with("blockckpt"));
+    if all_done && !obstacles {
+        let snap = |c: &Cas<K>| -> String {
+            let g = c.read_index_state();
+            let st = g.stats();
+            let mut kb: Vec<String> = g.known_blobs().map(|(h, n)| format!("{}x{}", hex(h.as_bytes()), n)).collect();
+            kb.sort();
+            format!("idx=[{}] unique={} bytes={} refs=[{}]", g.iter().map(|(k, it)| format!("{}={}:{}", hex(k), hex(it.blob_hash.as_bytes()), it.blob_size)).collect::<Vec<_>>().join(";"),
+                    st.cas.unique_blobs, st.cas.total_bytes, kb.join(";"))
+        };
+        let before = snap(&cas);
+        drop(stats);
+        drop(cas);
+        match Cas::<K>::open_with_recover(&root, Config { sync_mode: SyncMode::Sync, num_ops_per_wal: NonZeroU64::new(n).unwrap(), pre_create_cas_dirs: false,
+                        scan_orphans_on_startup: true, verify_blob_integrity: false, fail_on_integrity_errors: false }) {
+            Ok((cas2, st2)) => {
+                out.push(format!("R before {before}"));
+                out.push(format!("R reopen {}", snap(&cas2)));
+                if let Some(s) = st2 { out.push(format!("R scan missing={} total={}", s.missing_blobs.len(), s.total_blobs)); }
+            }
+            Err(e) => { out.push(format!("R before {before}")); out.push(format!("R reopen FAILED {}", classify(&format!("{e:?}")))); }
+        }
+    }
     out
 }
 
